@@ -84,6 +84,8 @@ def as_dtype(d):
 def scalar_dtype(v):
   if isinstance(v, (bool, SBool)):
     return bool_
+  if hasattr(v, "bits") and hasattr(v, "in_range"):
+    return int8 if v.bits == 8 else int16
   if isinstance(v, (int, SInt)):
     return int32
   if hasattr(v, "_pyvc_dtype"):
@@ -1507,6 +1509,8 @@ class Reduction:
       return SBool(term)
     if self.fp:
       return OPS.wrap(term)
+    if self.sort == z3.RealSort() and hasattr(OPS, "wrap_real"):
+      return OPS.wrap_real(term)
     return SInt(term) if self.sort == z3.IntSort() else SReal(term)
 
   def full_index(self, kidx, jidx):
@@ -1532,6 +1536,8 @@ class Reduction:
     res = SBool(term) if self.sort == z3.BoolSort() else (SInt(term) if self.sort == z3.IntSort() else SReal(term))
     if self.fp:
       res = OPS.wrap(term)
+    elif self.sort == z3.RealSort() and hasattr(OPS, "wrap_real"):
+      res = OPS.wrap_real(term)
     cands = self._candidates()
     if kind in ("max", "min"):
       eq = (lambda a, b: a.same_bits(b)) if self.fp else (lambda a, b: a == b)
